@@ -169,7 +169,11 @@ pub fn run(seed: u64, tier: &str, w: &mut dyn Write) -> usize {
         let hiding = r.below(3) == 0;
         let noracles = 1 + r.below(4) as usize;
         let npoints = 1 + r.below(3) as usize;
-        let inst = make(&mut r, degree_bits, noracles, hiding, &cfg, npoints, false);
+        // FriConfig::fri_params asserts degree_bits >= arity_bits for ConstantArityBits: such a combination is inadmissible
+        let inst = match catch_unwind(AssertUnwindSafe(|| make(&mut r, degree_bits, noracles, hiding, &cfg, npoints, false))) {
+            Ok(i) => i,
+            Err(_) => { writeln!(w, "c05 {si} inadmissible-shape = - # fri_params refused the configuration ({})", crate::rng::panic_site()).unwrap(); continue }
+        };
         // cap height must not exceed the last committed layer: the prover asserts it; skip inadmissible shapes
         let proof = match prove(&inst, &inst.openings) { Some(p) => p, None => { writeln!(w, "c05 {si} inadmissible-shape = - # prover refused").unwrap(); continue } };
         let chs = challenges(&inst, &inst.openings, &proof);
@@ -279,8 +283,7 @@ pub fn run(seed: u64, tier: &str, w: &mut dyn Write) -> usize {
             n += 1;
         }
         // (d) a function of too high degree: commit polynomials of 2n coefficients but claim degree n
-        if degree_bits >= 3 {
-            let small_params = cfg.fri_params(degree_bits - 1, hiding);
+        if let (true, Ok(small_params)) = (degree_bits >= 3, catch_unwind(AssertUnwindSafe(|| cfg.fri_params(degree_bits - 1, hiding)))) {
             let refs: Vec<&PolynomialBatch<F, C, D>> = inst.batches.iter().collect();
             // the oracles were committed with rate_bits relative to n; present them as degree n/2 with rate+1
             let mut cfg2 = cfg.clone(); cfg2.rate_bits += 1;
